@@ -158,8 +158,9 @@ def _opening_rows(s, n):
     return k
 
 
-def _min_bells():
-    """Number of data points at which `create_rhythm`'s regression rhythm first computes a regression."""
+def _min_bells(r=None):
+    """Number of data points at which `create_rhythm`'s regression rhythm (or the rhythm object given) first
+    computes a regression - measured through the public Rhythm interface."""
     import wheatley.rhythm.regression as wreg
     from wheatley import main as wmain
     from wheatley.bell import Bell
@@ -172,7 +173,8 @@ def _min_bells():
         return real(ds)
     wreg.calculate_regression = rec
     try:
-        r = wmain.create_rhythm(180, 0.0, 15, 1.0, False, 0.0)
+        if r is None:
+            r = wmain.create_rhythm(180, 0.0, 15, 1.0, False, 0.0)
         r.initialise_line(8, False, 1003.0, 7)
         for p in range(1, 8):
             b = Bell.from_number(p + 1)
